@@ -197,7 +197,7 @@ func (i *interpreter) initPkg(pkg *ssa.Package) {
 	if init := pkg.Func("init"); init != nil && init.Blocks != nil {
 		i.initBusy[pkg] = true
 		defer func() { delete(i.initBusy, pkg) }()
-		callSSA(i, nil, token.NoPos, init, nil, nil)
+		callSSA(i, i.initCaller, token.NoPos, init, nil, nil)
 	}
 }
 
